@@ -101,11 +101,12 @@ def markF : Nat → Nat → VS α → VS α
   | fuel+1, i, s =>
     if s.built i = true then s
     else
-      let s1 := (C.wb.deps i).foldl (fun st j => markF fuel j st) s
-      { built := update s1.built i true,
-        cache := match C.wb.kind i with
-          | .formula => update s1.cache i (C.stored i)
-          | _ => s1.cache }
+      let s0 : VS α :=
+        { built := update s.built i true,
+          cache := match C.wb.kind i with
+            | .formula => update s.cache i (C.stored i)
+            | _ => s.cache }
+      (C.wb.deps i).foldl (fun st j => markF fuel j st) s0
 
 /-- `_gen_graph(addr)`: build the closure, then evaluate the ranges this call created -/
 def genGraph (a : Nat) (s : VS α) : Option Fail × VS α :=
@@ -208,9 +209,12 @@ end
 
 /-! ### `_CellBase.close_enough(value, rel=0.00001, tol=tolerance)` on Excel scalars -/
 
-/-- `isinstance(v, Number)` and not a logical: the numeric view used by the comparison -/
+/-- `isinstance(v, Number)`: the numeric view used by the comparison.  A Python `bool` IS a `Number`, so a logical
+    takes part as 1/0 (`_Cell(value=True).close_enough(1)` is `True`): known finding `logical.as-number`, pinned by
+    tests/lib/test_logical.py::test_logical_ws (pycel computes 0 where Excel stored FALSE). -/
 def numView : Val → Option Rat
   | .num q => some q
+  | .bool b => some (if b then 1 else 0)
   | _ => none
 
 def ratAbs (q : Rat) : Rat := if q < 0 then -q else q
